@@ -614,11 +614,17 @@ def havoc_mutable_scalars(it, inst, containers=False, memo_none=False):
                     cnames.add(t.attr)
     out = []
     if containers:
-        from pyvc.api import PyDict
+        from pyvc.api import PyDict, SetV
         for a in sorted(cnames):
             v = inst.attrs.get(a)
             if isinstance(v, PyDict) and not v.d:
                 v.history = it.fresh('hist_' + a, IntS)
+                out.append(a)
+            elif isinstance(v, SetV):
+                # a set that methods fill (remembered hashes, names seen): arbitrary contents after an earlier use
+                v.history = it.fresh('hist_' + a, IntS)
+                if v.elem_sort is not None:
+                    v.arr = it.fresh('hist_%s.set' % a, v.arr.sort())
                 out.append(a)
     def class_level_none(a):
         stack2, seen3 = [inst.cls], set()
